@@ -650,3 +650,184 @@ Proof.
         (conj (proj2 (proj2 premises_satisfiable)) premises_allow_acceptance))).
 Qed.
 Print Assumptions C03_partial_premises_satisfiable.
+
+(** * Contract creations inside multi-message Ethereum transactions; events
+
+    A MsgEthereumTx may be a contract creation.  The ante handler has advanced
+    the sender's sequence for ALL messages of the Cosmos transaction before the
+    first one executes; executing a successful creation with nonce [m] then
+    writes the sender's nonce again (ApplyMessageWithConfig "takes over the nonce
+    management").  [step_eth_txc rule]: the ante handler ([step_eth_tx]) followed
+    by the execution phase, in which a message flagged [creates] and [create_ok]
+    writes [rule (current nonce) m].  The code as it is now:
+    [nonce_after_creation before m = max before (m + 1)]; the code before commit
+    f9ff121: [nonce_after_creation_old before m = m + 1]. *)
+
+(** With the rule of the code as it is now the execution phase changes no
+    sequence, whatever the flags: a transaction with creations is accepted
+    exactly when the ante handler accepts it and leaves exactly its sequences. *)
+Theorem C03_creating_execution_noop :
+  forall (hash : list N -> list N) (recover : list N -> Z -> Z -> Z -> option (list N))
+         (cfg : chain_cfg) (st : list N -> N) (msc : list (eth_tx * cflag)) (ok : bool),
+    snd (step_eth_txc hash recover cfg nonce_after_creation st (msc, ok))
+    = snd (step_eth_tx hash recover cfg st (map fst msc, ok)) /\
+    forall b : list N, fst (step_eth_txc hash recover cfg nonce_after_creation st (msc, ok)) b
+                       = fst (step_eth_tx hash recover cfg st (map fst msc, ok)) b.
+Proof. exact eth_txc_execution_noop. Qed.
+Print Assumptions C03_creating_execution_noop.
+
+(** Sequence = n + k: after an accepted transaction every account's sequence
+    has grown by the number of its messages in it, creations (successful or
+    failed) or calls, at any position. *)
+Theorem C03_creating_sequence_n_plus_k :
+  forall (hash : list N -> list N) (recover : list N -> Z -> Z -> Z -> option (list N))
+         (cfg : chain_cfg) (st : list N -> N) (msc : list (eth_tx * cflag)) (ok : bool) (l : list (list N)),
+    snd (step_eth_txc hash recover cfg nonce_after_creation st (msc, ok)) = Some l ->
+    forall b : list N, fst (step_eth_txc hash recover cfg nonce_after_creation st (msc, ok)) b
+                       = (st b + N.of_nat (count_occ (list_eq_dec N.eq_dec) l b))%N.
+Proof. exact eth_txc_sequence. Qed.
+Print Assumptions C03_creating_sequence_n_plus_k.
+
+(** At most once, over ALL histories of transactions with creations (any flags,
+    any order, any replays alone or in sub-batches). *)
+Theorem C03_creating_each_nonce_once :
+  forall (hash : list N -> list N) (recover : list N -> Z -> Z -> Z -> option (list N))
+         (cfg : chain_cfg) (h : list (list (eth_tx * cflag) * bool)) (st : list N -> N)
+         (j k j' k' : nat) (a : list N) (n : N),
+    executed_eth_txc hash recover cfg nonce_after_creation st h j k a n ->
+    executed_eth_txc hash recover cfg nonce_after_creation st h j' k' a n -> j = j' /\ k = k'.
+Proof. exact eth_txc_each_nonce_once. Qed.
+Print Assumptions C03_creating_each_nonce_once.
+
+Theorem C03_creating_sequences_monotone :
+  forall (hash : list N -> list N) (recover : list N -> Z -> Z -> Z -> option (list N))
+         (cfg : chain_cfg) (h1 h2 : list (list (eth_tx * cflag) * bool)) (st : list N -> N) (b : list N),
+    (final_eth_txc hash recover cfg nonce_after_creation st h1 b
+     <= final_eth_txc hash recover cfg nonce_after_creation st (h1 ++ h2) b)%N.
+Proof. exact eth_txc_sequences_monotone. Qed.
+Print Assumptions C03_creating_sequences_monotone.
+
+(** REFUTED for the old rule (the code before commit f9ff121): in the history
+    [tx [create 5; call 6]; tx [call 6]] the call executes twice -- the
+    at-most-once statement is false -- and after the first transaction (two
+    messages accepted from sequence 5) the sequence is 6, not 7. *)
+Theorem C03_old_creation_rule_refuted :
+  ~ (forall (h : list (list (eth_tx * cflag) * bool)) (st : list N -> N) (j k j' k' : nat) (a : list N) (n : N),
+       executed_eth_txc toy_hash toy_recover ex_cfg nonce_after_creation_old st h j k a n ->
+       executed_eth_txc toy_hash toy_recover ex_cfg nonce_after_creation_old st h j' k' a n -> j = j' /\ k = k').
+Proof. exact old_creation_rule_refuted. Qed.
+Print Assumptions C03_old_creation_rule_refuted.
+
+Theorem C03_old_creation_rule_sequence_refuted :
+  ~ (forall (st : list N -> N) (msc : list (eth_tx * cflag)) (ok : bool) (l : list (list N)),
+       snd (step_eth_txc toy_hash toy_recover ex_cfg nonce_after_creation_old st (msc, ok)) = Some l ->
+       forall b : list N, fst (step_eth_txc toy_hash toy_recover ex_cfg nonce_after_creation_old st (msc, ok)) b
+                          = (st b + N.of_nat (count_occ (list_eq_dec N.eq_dec) l b))%N).
+Proof. exact old_creation_rule_sequence_refuted. Qed.
+Print Assumptions C03_old_creation_rule_sequence_refuted.
+
+(** The witness, and the same history under the rule of the code as it is now
+    (the replay is rejected, the sequence ends at 7 = 5 + 2). *)
+Theorem C03_creating_nonvacuous :
+  (outcomes_eth_txc toy_hash toy_recover ex_cfg nonce_after_creation ex_state ex_create_history
+   = [Some [toy_addr 42; toy_addr 42]; None] /\
+   seq_of (final_eth_txc toy_hash toy_recover ex_cfg nonce_after_creation ex_state ex_create_history) = (7%N, 0%N) /\
+   executed_eth_txc toy_hash toy_recover ex_cfg nonce_after_creation ex_state ex_create_history 0 1 (toy_addr 42) 6%N) /\
+  (outcomes_eth_txc toy_hash toy_recover ex_cfg nonce_after_creation_old ex_state ex_create_history
+   = [Some [toy_addr 42; toy_addr 42]; Some [toy_addr 42]] /\
+   seq_of (final_eth_txc toy_hash toy_recover ex_cfg nonce_after_creation_old ex_state (firstn 1 ex_create_history)) = (6%N, 0%N) /\
+   executed_eth_txc toy_hash toy_recover ex_cfg nonce_after_creation_old ex_state ex_create_history 0 1 (toy_addr 42) 6%N /\
+   executed_eth_txc toy_hash toy_recover ex_cfg nonce_after_creation_old ex_state ex_create_history 1 0 (toy_addr 42) 6%N).
+Proof. exact (conj ex_create_new_rule ex_create_old_rule). Qed.
+Print Assumptions C03_creating_nonvacuous.
+
+(** ** Events: everything that happens to the sequences
+
+    A history of events mixes submissions (Ethereum route, wrapped), Ethereum
+    transactions with creations ([ECreating]) and account-type operations
+    ([EAccountOp o target signed ok]: conversion of [target] into a vesting
+    account by a third party, a merge into it, the conversion back -- a
+    transaction of its own signers, which leaves [target]'s sequence alone). *)
+
+(** At most once, over ALL histories of events. *)
+Theorem C03_event_each_nonce_once :
+  forall (hash : list N -> list N) (recover : list N -> Z -> Z -> Z -> option (list N))
+         (cfg : chain_cfg) (W O : Type) (h : list (@event (list N) eth_tx W O)) (st : list N -> N)
+         (j k j' k' : nat) (a : list N) (n : N),
+    executed_eth_event hash recover cfg nonce_after_creation st h j k a n ->
+    executed_eth_event hash recover cfg nonce_after_creation st h j' k' a n -> j = j' /\ k = k'.
+Proof. exact eth_event_each_nonce_once. Qed.
+Print Assumptions C03_event_each_nonce_once.
+
+(** A message executed once is never executed again, whatever events lie
+    between (account-type operations, creations, wrapped submissions). *)
+Theorem C03_event_replay_rejected :
+  forall (hash : list N -> list N) (recover : list N -> Z -> Z -> Z -> option (list N))
+         (cfg : chain_cfg) (W O : Type) (h : list (@event (list N) eth_tx W O)) (st : list N -> N)
+         (j k : nat) (a : list N) (n : N) (j' k' : nat),
+    executed_eth_event hash recover cfg nonce_after_creation st h j k a n -> (j < j')%nat ->
+    ~ executed_eth_event hash recover cfg nonce_after_creation st h j' k' a n.
+Proof. exact eth_event_replay_rejected. Qed.
+Print Assumptions C03_event_replay_rejected.
+
+(** Sequences never decrease, over ALL histories of events. *)
+Theorem C03_event_sequences_monotone :
+  forall (hash : list N -> list N) (recover : list N -> Z -> Z -> Z -> option (list N))
+         (cfg : chain_cfg) (W O : Type) (h1 h2 : list (@event (list N) eth_tx W O)) (st : list N -> N) (b : list N),
+    (final_eth_event hash recover cfg nonce_after_creation st h1 b
+     <= final_eth_event hash recover cfg nonce_after_creation st (h1 ++ h2) b)%N.
+Proof. exact eth_event_sequences_monotone. Qed.
+Print Assumptions C03_event_sequences_monotone.
+
+(** Whatever executes carried a nonce not below the account's sequence before
+    the event and below its sequence after it. *)
+Theorem C03_event_executed_at_current_sequence :
+  forall (hash : list N -> list N) (recover : list N -> Z -> Z -> Z -> option (list N))
+         (cfg : chain_cfg) (W O : Type) (h : list (@event (list N) eth_tx W O)) (st : list N -> N)
+         (j k : nat) (a : list N) (n : N),
+    executed_eth_event hash recover cfg nonce_after_creation st h j k a n ->
+    (final_eth_event hash recover cfg nonce_after_creation st (firstn j h) a <= n
+     < final_eth_event hash recover cfg nonce_after_creation st (firstn (S j) h) a)%N.
+Proof. exact eth_event_executed_at_current_sequence. Qed.
+Print Assumptions C03_event_executed_at_current_sequence.
+
+(** An account-type operation does not move its target's sequence (unless the
+    target itself signed the operation). *)
+Theorem C03_account_op_target_untouched :
+  forall (hash : list N -> list N) (recover : list N -> Z -> Z -> Z -> option (list N))
+         (cfg : chain_cfg) (W O : Type) (st : list N -> N) (o : O) (target : list N) (signed : list eth_tx) (ok : bool),
+    (forall m, In m signed -> auth_eth hash recover cfg st m <> Some target) ->
+    fst (step_eth_event (W:=W) hash recover cfg nonce_after_creation st (EAccountOp o target signed ok)) target = st target.
+Proof. exact eth_account_op_target_untouched. Qed.
+Print Assumptions C03_account_op_target_untouched.
+
+(** The machine the correspondence run evaluates ([step_sub_event]) is an
+    instance. *)
+Theorem C03_sub_event_each_nonce_once :
+  forall (nd : node) (h : list (@event N sub wrap account_op)) (st : N -> N) (j k j' k' : nat) (a n : N),
+    executed_event N.eq_dec (auth_sub nd) sub_nonce nonce_after_creation st h j k a n ->
+    executed_event N.eq_dec (auth_sub nd) sub_nonce nonce_after_creation st h j' k' a n -> j = j' /\ k = k'.
+Proof. exact sub_event_each_nonce_once. Qed.
+Print Assumptions C03_sub_event_each_nonce_once.
+
+Theorem C03_sub_event_sequences_monotone :
+  forall (nd : node) (h1 h2 : list (@event N sub wrap account_op)) (st : N -> N) (b : N),
+    (final_event N.eq_dec (auth_sub nd) sub_nonce nonce_after_creation st h1 b
+     <= final_event N.eq_dec (auth_sub nd) sub_nonce nonce_after_creation st (h1 ++ h2) b)%N.
+Proof. exact sub_event_sequences_monotone. Qed.
+Print Assumptions C03_sub_event_sequences_monotone.
+
+(** Non-vacuity: a creation batch of key 42, a conversion of key 42's account
+    signed by key 43, the replay of the batch's call (rejected), the replay of
+    the creation (rejected), a wrapped replay (rejected), the conversion back, a
+    batch with a FAILED creation (accepted, sequence + 2), a stale message. *)
+Theorem C03_event_nonvacuous :
+  outcomes_eth_event toy_hash toy_recover ex_cfg nonce_after_creation ex_state ex_event_history
+  = [Some [toy_addr 42; toy_addr 42]; Some [toy_addr 43]; None; None; None; Some [toy_addr 43];
+     Some [toy_addr 42; toy_addr 42]; None] /\
+  map (fun i => seq_of (final_eth_event toy_hash toy_recover ex_cfg nonce_after_creation ex_state (firstn i ex_event_history)))
+      [0; 1; 2; 6; 7; 8]%nat
+  = [(5%N, 0%N); (7%N, 0%N); (7%N, 1%N); (7%N, 2%N); (9%N, 2%N); (9%N, 2%N)] /\
+  executed_eth_event toy_hash toy_recover ex_cfg nonce_after_creation ex_state ex_event_history 0 1 (toy_addr 42) 6%N.
+Proof. exact ex_event_outcomes. Qed.
+Print Assumptions C03_event_nonvacuous.
